@@ -112,6 +112,8 @@ export async function check(group, records) {
   if (!rec || rec.status !== 'ok') return [inconclusive({ ...base, reason: `transform status ${rec && rec.status}` })];
   const form = group.feature.split('|')[0];
   if (rec.n_err > 0) return [violated({ ...base, oracle: 'resolvable emits type resolves without diagnostic', sig: `C19/unexpected-diagnostic/${rec.diags[0].msg.replace(/\W+/g, '_').slice(0, 40)}/${form}`, detail: { diags: rec.diags } })];
+  // an output that is not a program delivers nothing to the runtime (the input did parse)
+  if (rec.exec == null && /does not parse/.test(String(rec.exec_declined))) return [violated({ ...base, oracle: 'the output module can be loaded', sig: `C19/output-does-not-parse`, detail: short(rec.exec_declined, 200) })];
   if (rec.exec == null) return [inconclusive({ ...base, reason: `exec declined: ${rec.exec_declined}` })];
   const { rt, error, cleanup } = await loadModule(rec.exec, ENV);
   try {
